@@ -124,4 +124,142 @@ theorem parseArgs_eq (t : Table) (args : List Str) (r : R) :
   show parseF t (meas args) args' r' = parseF t (meas args' + 1) args' r'
   exact parseF_indep t _ _ args' r' hlt (by omega)
 
+/-! ### `=` handling and the key order of jq objects -/
+
+theorem idxEq_none_of_not_mem : ∀ (s : Str), '=' ∉ s → idxEq s = none
+  | [], _ => rfl
+  | c :: cs, h => by
+    have hc : c ≠ '=' := fun e => h (by simp [e])
+    have := idxEq_none_of_not_mem cs (fun m => h (by simp [m]))
+    simp [idxEq, hc, this]
+
+theorem argOf_of_no_eq (s : Str) (h : '=' ∉ s) : argOf s = s := by
+  simp [argOf, idxEq_none_of_not_mem s h]
+
+theorem idxEq_append_eq : ∀ (k v : Str), '=' ∉ k → idxEq (k ++ '=' :: v) = some k.length
+  | [], v, _ => by simp [idxEq]
+  | c :: cs, v, h => by
+    have hc : c ≠ '=' := fun e => h (by simp [e])
+    have := idxEq_append_eq cs v (fun m => h (by simp [m]))
+    simp [idxEq, hc, this]
+
+theorem strLt_irrefl : ∀ (a : Str), strLt a a = false
+  | [] => rfl
+  | c :: cs => by simp [strLt, strLt_irrefl cs]
+
+theorem strLt_asymm : ∀ (a b : Str), strLt a b = true → strLt b a = false
+  | [], [], h => by simp [strLt] at h
+  | [], _ :: _, _ => rfl
+  | _ :: _, [], h => by simp [strLt] at h
+  | a :: as, b :: bs, h => by
+    simp only [strLt] at h ⊢
+    split at h
+    · rename_i hab
+      have : ¬ b.toNat < a.toNat := by omega
+      have hba : ¬ (b.toNat < a.toNat) := this
+      simp [hba, hab]
+    · split at h
+      · simp at h
+      · rename_i h1 h2
+        simp [h1, h2, strLt_asymm as bs h]
+
+theorem strLt_total : ∀ (a b : Str), a ≠ b → strLt a b = true ∨ strLt b a = true
+  | [], [], h => absurd rfl h
+  | [], _ :: _, _ => Or.inl rfl
+  | _ :: _, [], _ => Or.inr rfl
+  | a :: as, b :: bs, h => by
+    simp only [strLt]
+    by_cases h1 : a.toNat < b.toNat
+    · simp [h1]
+    · by_cases h2 : b.toNat < a.toNat
+      · simp [h1, h2]
+      · have hab : a = b := Char.toNat_inj.mp (by omega)
+        subst hab
+        have : as ≠ bs := fun e => h (by rw [e])
+        simpa [h1] using strLt_total as bs this
+
+theorem strLt_trans : ∀ (a b c : Str), strLt a b = true → strLt b c = true → strLt a c = true
+  | [], [], _, h, _ => by simp [strLt] at h
+  | [], _ :: _, [], _, h => by simp [strLt] at h
+  | [], _ :: _, _ :: _, _, _ => rfl
+  | _ :: _, [], _, h, _ => by simp [strLt] at h
+  | _ :: _, _ :: _, [], _, h => by simp [strLt] at h
+  | a :: as, b :: bs, c :: cs, h1, h2 => by
+    simp only [strLt] at h1 h2 ⊢
+    by_cases hab : a.toNat < b.toNat
+    · by_cases hbc : b.toNat < c.toNat
+      · have : a.toNat < c.toNat := by omega
+        simp [this]
+      · by_cases hcb : c.toNat < b.toNat
+        · simp [hbc, hcb] at h2
+        · have : a.toNat < c.toNat := by omega
+          simp [this]
+    · by_cases hba : b.toNat < a.toNat
+      · simp [hab, hba] at h1
+      · simp only [hab, hba] at h1
+        by_cases hbc : b.toNat < c.toNat
+        · have : a.toNat < c.toNat := by omega
+          simp [this]
+        · by_cases hcb : c.toNat < b.toNat
+          · simp [hbc, hcb] at h2
+          · simp only [hbc, hcb] at h2
+            have e1 : ¬ a.toNat < c.toNat := by omega
+            have e2 : ¬ c.toNat < a.toNat := by omega
+            simp only [e1, e2]
+            exact strLt_trans as bs cs (by simpa using h1) (by simpa using h2)
+
+/-- updates of two different keys of a jq object commute -/
+theorem setKey_comm {α} (a b : Str) (hab : a ≠ b) (x y : α) :
+    ∀ (m : List (Str × α)), setKey a (fun _ => x) (setKey b (fun _ => y) m) = setKey b (fun _ => y) (setKey a (fun _ => x) m)
+  | [] => by
+    rcases strLt_total a b hab with h | h
+    · have h' := strLt_asymm a b h
+      simp [setKey, hab, hab.symm, h, h']
+    · have h' := strLt_asymm b a h
+      simp [setKey, hab, hab.symm, h, h']
+  | (k, v) :: m => by
+    have ih := setKey_comm a b hab x y m
+    by_cases hak : a = k
+    · subst hak
+      by_cases hlt : strLt b a = true
+      · have h' := strLt_asymm b a hlt
+        simp [setKey, hab, hab.symm, hlt, h']
+      · simp [setKey, hab, hab.symm, hlt]
+    · by_cases hbk : b = k
+      · subst hbk
+        by_cases hlt : strLt a b = true
+        · have h' := strLt_asymm a b hlt
+          simp [setKey, hab, hab.symm, hlt, h']
+        · simp [setKey, hab, hab.symm, hlt]
+      · by_cases hal : strLt a k = true
+        · by_cases hbl : strLt b k = true
+          · rcases strLt_total a b hab with h | h
+            · have h' := strLt_asymm a b h
+              simp [setKey, hak, hbk, hal, hbl, hab, hab.symm, h, h']
+            · have h' := strLt_asymm b a h
+              simp [setKey, hak, hbk, hal, hbl, hab, hab.symm, h, h']
+          · -- a < k ≤ b
+            have hba : strLt b a = false := by
+              cases hb : strLt b a with
+              | false => rfl
+              | true => exact absurd (strLt_trans b a k hb hal) hbl
+            simp [setKey, hak, hbk, hal, hbl, hab, hab.symm, hba]
+        · by_cases hbl : strLt b k = true
+          · have hab' : strLt a b = false := by
+              cases ha : strLt a b with
+              | false => rfl
+              | true => exact absurd (strLt_trans a b k ha hbl) hal
+            simp [setKey, hak, hbk, hal, hbl, hab, hab.symm, hab']
+          · simp [setKey, hak, hbk, hal, hbl, ih]
+
+theorem setKey_idem {α} (a : Str) (x : α) :
+    ∀ (m : List (Str × α)), setKey a (fun _ => x) (setKey a (fun _ => x) m) = setKey a (fun _ => x) m
+  | [] => by simp [setKey]
+  | (k, v) :: m => by
+    by_cases hak : a = k
+    · subst hak; simp [setKey]
+    · by_cases hal : strLt a k = true
+      · simp [setKey, hak, hal]
+      · simp [setKey, hak, hal, setKey_idem a x m]
+
 end Proofs.C17Parse
